@@ -19,7 +19,7 @@ void comp_case(Ctx &c) {
         c.count("enum_cases");
         c.maxc("enum_space_per_configuration", kSmallScope.total());
     }
-    auto sc = Huge && !c.given ? gen_huge_case<K>(c.rng, Eps) : Mode == 2 && !c.given ? [&] { StaticCase<K> e; gen_enum_case<K>(c, e); return e; }() : make_static_case<K>(c, Eps, chunked, 5000, c.thorough() ? (size_t(1) << 17) : (size_t(1) << 16), EpsRec);
+    auto sc = Mode == 3 && !c.given ? gen_big_case<K>(c, Eps) : Huge && !c.given ? gen_huge_case<K>(c.rng, Eps) : Mode == 2 && !c.given ? [&] { StaticCase<K> e; gen_enum_case<K>(c, e); return e; }() : make_static_case<K>(c, Eps, chunked, 5000, c.thorough() ? (size_t(1) << 17) : (size_t(1) << 16), EpsRec);
     NoExtra ex;
     run_static<K, Idx, Eps>(c, sc, variant_which(c), ex);
 }
@@ -27,6 +27,8 @@ void comp_case(Ctx &c) {
     VF_REGISTER(std::string("comp/") + ::vf::KT<K>::name() + ",e" #E ",er" #ER "," #F, (&::vf::comp_case<K, E, ER, F>), 1.0)
 #define VF_COMP_ENUM(K, E, ER, F)                                                                                      \
     VF_REGISTER(std::string("comp/") + ::vf::KT<K>::name() + ",e" #E ",er" #ER "," #F "#enum", (&::vf::comp_case<K, E, ER, F, 2>), 8.6)
+#define VF_COMP_BIG(K, E, ER, F)                                                                                       \
+    VF_REGISTER(std::string("comp/") + ::vf::KT<K>::name() + ",e" #E ",er" #ER "," #F "#big", (&::vf::comp_case<K, E, ER, F, 3>), 0.0041)
 #define VF_COMP_HUGE(K, E, ER, F)                                                                                      \
     VF_REGISTER(std::string("comp/") + ::vf::KT<K>::name() + ",e" #E ",er" #ER "," #F "#huge", (&::vf::comp_case<K, E, ER, F, 1>), 0.0003)
 
@@ -65,7 +67,7 @@ void bucket_case(Ctx &c) {
         c.count("enum_cases");
         c.maxc("enum_space_per_configuration", kSmallScope.total());
     }
-    auto sc = Huge && !c.given ? gen_huge_case<K>(c.rng, Eps) : Mode == 2 && !c.given ? [&] { StaticCase<K> e; gen_enum_case<K>(c, e); return e; }() : make_static_case<K>(c, Eps, chunked, 5000, c.thorough() ? (size_t(1) << 17) : (size_t(1) << 16));
+    auto sc = Mode == 3 && !c.given ? gen_big_case<K>(c, Eps) : Huge && !c.given ? gen_huge_case<K>(c.rng, Eps) : Mode == 2 && !c.given ? [&] { StaticCase<K> e; gen_enum_case<K>(c, e); return e; }() : make_static_case<K>(c, Eps, chunked, 5000, c.thorough() ? (size_t(1) << 17) : (size_t(1) << 16));
     if (Mode == 0 && !c.given && !chunked && c.rng.chance(1, 6)) {
         // keys exactly on first + i*step for the bucket step this configuration will use, and spans of the whole type
         using D = UDom<K>;
@@ -95,6 +97,9 @@ void bucket_case(Ctx &c) {
 #define VF_BUCKET_ENUM(K, E, TOP, BITS, F)                                                                             \
     VF_REGISTER(std::string("bucket/") + ::vf::KT<K>::name() + ",e" #E ",top" #TOP ",bits" #BITS "," #F "#enum",      \
                 (&::vf::bucket_case<K, E, TOP, BITS, F, 2>), 8.6)
+#define VF_BUCKET_BIG(K, E, TOP, BITS, F)                                                                              \
+    VF_REGISTER(std::string("bucket/") + ::vf::KT<K>::name() + ",e" #E ",top" #TOP ",bits" #BITS "," #F "#big",       \
+                (&::vf::bucket_case<K, E, TOP, BITS, F, 3>), 0.0041)
 #define VF_BUCKET_HUGE(K, E, TOP, BITS, F)                                                                             \
     VF_REGISTER(std::string("bucket/") + ::vf::KT<K>::name() + ",e" #E ",top" #TOP ",bits" #BITS "," #F "#huge",      \
                 (&::vf::bucket_case<K, E, TOP, BITS, F, 1>), 0.0003)
@@ -130,7 +135,7 @@ void ef_case(Ctx &c) {
         c.count("enum_cases");
         c.maxc("enum_space_per_configuration", kSmallScope.total());
     }
-    auto sc = Huge && !c.given ? gen_huge_case<K>(c.rng, Eps) : Mode == 2 && !c.given ? [&] { StaticCase<K> e; gen_enum_case<K>(c, e); return e; }() : make_static_case<K>(c, Eps, chunked, 5000, c.thorough() ? (size_t(1) << 17) : (size_t(1) << 16));
+    auto sc = Mode == 3 && !c.given ? gen_big_case<K>(c, Eps) : Huge && !c.given ? gen_huge_case<K>(c.rng, Eps) : Mode == 2 && !c.given ? [&] { StaticCase<K> e; gen_enum_case<K>(c, e); return e; }() : make_static_case<K>(c, Eps, chunked, 5000, c.thorough() ? (size_t(1) << 17) : (size_t(1) << 16));
     if (Mode == 0 && !c.given && !chunked && c.rng.chance(1, 5)) {
         // segment-key sets of a chosen density: `m` far-apart clusters of 2eps+2 consecutive keys -> m segments whose
         // keys span 2^b, so the Elias-Fano low-bit width takes every value
@@ -182,6 +187,8 @@ void ef_case(Ctx &c) {
 }
 #define VF_EF_ENUM(K, E, F)                                                                                            \
     VF_REGISTER(std::string("ef/") + ::vf::KT<K>::name() + ",e" #E "," #F "#enum", (&::vf::ef_case<K, E, F, 2>), 8.6)
+#define VF_EF_BIG(K, E, F)                                                                                             \
+    VF_REGISTER(std::string("ef/") + ::vf::KT<K>::name() + ",e" #E "," #F "#big", (&::vf::ef_case<K, E, F, 3>), 0.0041)
 #define VF_EF_HUGE(K, E, F)                                                                                            \
     VF_REGISTER(std::string("ef/") + ::vf::KT<K>::name() + ",e" #E "," #F "#huge", (&::vf::ef_case<K, E, F, 1>), 0.0003)
 #define VF_EF(K, E, F)                                                                                                 \
